@@ -92,8 +92,8 @@ fn main() {
             if got != b { out.fail(&case, "in-scope-bindings", &format!("node {}: namespaces_in_scope = {:?}, walking the ancestors gives {:?}", i, got, b)); }
             for p in 0..np {
                 if nfp[p] != b.get(&p).copied() { out.fail(&case, "namespace-for-prefix", &format!("node {}: namespace_for_prefix({}) = {:?}, bound to {:?}", i, p, nfp[p], b.get(&p))); }
-                // is_prefix_defined: some ancestor-or-self declares the prefix (whatever it binds it to), or it is xml
-                let declared = xot.ancestors(x).any(|a| xot.is_element(a) && xot.namespaces(a).keys().any(|q| reg.prefix_idx(q) == p)) || p == 1;
+                // is_prefix_defined: the prefix is bound in the node's scope (xmlns="" is no binding of the empty prefix)
+                let declared = b.contains_key(&p);
                 if (ipd.as_bytes()[p] == b'1') != declared { out.fail(&case, "is-prefix-defined", &format!("node {}: is_prefix_defined({}) = {}, declared = {}", i, p, ipd.as_bytes()[p] == b'1', declared)); }
             }
             for ns in 1..nn {
@@ -107,6 +107,19 @@ fn main() {
             let parent_scope: BTreeMap<usize, usize> = match xot.parent(x) { Some(p) => bindings(&xot, &reg, p), None => BTreeMap::new() };
             let want_inh: Vec<(usize, usize)> = parent_scope.iter().filter(|(_, ns)| unres.contains(ns)).map(|(p, ns)| (*p, *ns)).collect();
             if inh != want_inh { out.fail(&case, "inherited-prefixes", &format!("node {}: inherited_prefixes = {:?}, in-scope bindings of the parent for unresolved namespaces = {:?}", i, inh, want_inh)); }
+            // (known deviations, each a class of its own) a prefix the node itself declares is not inherited; a name in no
+            // namespace needs no prefix; the xml prefix is always bound
+            if xot.is_element(x) {
+                for (p, _) in &inh {
+                    if xot.namespaces(x).keys().any(|q| reg.prefix_idx(q) == *p) {
+                        out.fail(&case, "inherited-prefixes-lists-a-prefix-the-node-declares", &format!("node {}: inherited_prefixes lists prefix {} which the node declares itself", i, p));
+                        break;
+                    }
+                }
+            }
+            if unres.contains(&0) { out.fail(&case, "unresolved-namespaces-lists-no-namespace", &format!("node {}: unresolved_namespaces = {:?} lists \"no namespace\"", i, unres)); }
+            let xml_ns_idx = reg.ns_idx(xot.xml_namespace());
+            if unres.contains(&xml_ns_idx) { out.fail(&case, "unresolved-namespaces-lists-the-xml-namespace", &format!("node {}: unresolved_namespaces = {:?} lists the xml namespace, whose prefix is always bound", i, unres)); }
             for u in &unres {
                 if *u == 0 { continue; }
                 let used = xot.descendants(x).any(|d| match xot.value(d) {
